@@ -144,8 +144,10 @@ CLAIMS = {
          "Trusted: as C08; monotonicity of the local search is not a theorem.",
          "DESIGN.md section 4, C09"),
  "C04": ("Per-run judgement in Coq of every reported score against kemeny_spec + theorems for the pieces that are pure",
-         "PARTIAL proof. Machine-checked: kemeny_spec >= 0; PickAPerm's reported minimum is the score of every returned ranking; the cost table "
-         "sums to the score. Per run, in Coq, for 13 algorithm configurations and both values of return_at_most_one_ranking: kemeny_score, "
+         "Machine-checked: the score computed on demand by the Consensus object (model of get_kemeny_score) is the definition (C01 main theorem); "
+         "the objective value reported by the exact algorithm is the score of the ranking its decoder returns, on every feasible point "
+         "(C04_solver_objective); PickAPerm's reported minimum is the score of every returned ranking; kemeny_spec >= 0; the cost table sums to "
+         "the score. PARTIAL for one producer: BioConsert's bookkeeping (initial score + accumulated deltas) is judged per run only. Per run, in Coq, for 13 algorithm configurations and both values of return_at_most_one_ranking: kemeny_score, "
          "features[KEMENY_SCORE] and description() give a number equal (1e-6) to kemeny_spec of EVERY returned ranking, never absent or "
          "negative; lazily computed scores equal the model of the Kemeny routine on the first ranking.",
          "Trusted: Coq kernel + vm_compute; model; harness; CBC objective value read through PuLP.",
@@ -153,8 +155,9 @@ CLAIMS = {
  "C03": ("Coq well-formedness theorems for the modelled algorithms + per-run judgement in Coq of every returned consensus",
          "PARTIAL proof. Machine-checked for all inputs: Borda (both variants), Copeland, KwikSort (every pivot script) return a partition of "
          "the universe into non-empty buckets; unified rankings (PickAPerm's candidates) rank exactly the universe; decoding a dense bucket-id "
-         "vector gives non-empty disjoint buckets. Not theorems in this version: the defeat-count decoders of the exact algorithms / ParCons' "
-         "concatenation / BioConsert's dictionary decoder. Per run, judged in Coq on typed names: 15 configurations x datasets over ints, "
+         "vector gives non-empty disjoint buckets; the defeat-count decoder of the exact algorithm returns non-empty disjoint buckets over all ids on "
+         "every feasible point of its program; the ParCons concatenation ranks exactly the universe given well-formed sub-answers. Not a theorem in "
+         "this version: BioConsert's dictionary decoder on the vectors its local search produces. Per run, judged in Coq on typed names: 15 configurations x datasets over ints, "
          "colliding ints, letters, digit strings, mixed names, duplicates, empty rankings, one element, both values of "
          "return_at_most_one_ranking: >= 1 ranking (exactly 1 when asked), non-empty disjoint buckets, union = universe with types preserved, "
          "positions/domain/size consistent.",
